@@ -1,5 +1,35 @@
-"""C34 The gateway maps a request host to the right tunnel name.  Spec: Gateway (family resolve)."""
-import vf
+"""C34 The gateway maps a request host to the right tunnel name.  Spec: Gateway (families resolve, resolve_obs)."""
+import json, string, vf
+
+_ROOTS = [["example.com"], ["specter.dev", "tun.example.co.uk"], ["a.b.c.d.com", "x.y.z.net"]]
+
+
+def _split(h):
+    return [list(l) for l in h.split(".")]
+
+
+def _rand_label(rng):
+    n = rng.choice([1, 1, 2, 3, 5, 8, 12])
+    l = "".join(rng.choice(string.ascii_letters + string.digits + "-") for _ in range(n))
+    if l[0] == "-" or l[-1] == "-":
+        l = "x" + l.strip("-") + "Y"
+    return l
+
+
+def _recase(rng, s):
+    mode = rng.randrange(4)
+    return s if mode == 0 else s.upper() if mode == 1 else "".join(ch.upper() if rng.random() < 0.5 else ch.lower() for ch in s)
+
+
+def _rand_host(rng, roots):
+    k = rng.randrange(10)
+    if k < 4 and roots:                       # something under a configured root, any case
+        pre = [_rand_label(rng) for _ in range(rng.choice([0, 1, 1, 1, 2]))]
+        return ".".join(pre + [_recase(rng, rng.choice(roots))])
+    if k == 4:                                # dotted numbers: IPv4 literals and near misses without leading zeros
+        n = rng.choice([2, 3, 4, 4, 4, 5])
+        return ".".join(str(rng.choice([0, 1, 9, 10, 99, 127, 192, 255, 256, 300, 1000])) for _ in range(n))
+    return ".".join(_rand_label(rng) for _ in range(rng.choice([1, 2, 3, 3, 4, 5, 6])))
 
 
 def _host(c):
@@ -39,7 +69,7 @@ def _sig(c, e, o):
     if c["lit"]:
         where = "ip-literal"
     elif host == host.lower():
-        where = "ipv4" if all("".join(l).isdigit() for l in c["host"]) else "lowercase:%d-labels" % len(c["host"])
+        where = ("numeric" if all("".join(l).isdigit() for l in c["host"]) else "lowercase") + ":%d-labels" % len(c["host"])
     else:
         first = "".join(c["host"][0])
         rest = ".".join("".join(l) for l in c["host"][1:])
@@ -48,10 +78,49 @@ def _sig(c, e, o):
     return "C34:%s->%s:%s" % (exp, got, where)
 
 
+def _random_part(ck, binary, only=None):
+    """backward conformance: seeded random hosts -> real code -> observations judged by ResolveDecl inside TLC"""
+    if only is not None:
+        inputs = [only]
+    else:
+        inputs = []
+        for _ in range(20000 if ck.thorough else 2500):
+            roots = ck.rng.choice(_ROOTS)
+            inputs.append({"host": _rand_host(ck.rng, roots), "roots": roots})
+    lines = [{"host": _split(x["host"]), "lit": "", "roots": [_split(r) for r in x["roots"]], "ports": [443, 65535]} for x in inputs]
+    recs = ck.drive(binary, ["resolve"], input_lines=lines)
+    byi = {r["i"]: r["o"] for r in recs}
+    if len(byi) != len(inputs):
+        raise vf.Infra("driver answered %d of %d random hosts" % (len(byi), len(inputs)))
+    obs = "".join(json.dumps({"c": {"host": l["host"], "roots": l["roots"]},
+                              "o": [{"ok": o["ok"], "name": _split(o["name"]) if o["ok"] else []} for o in byi[i]]}) + "\n"
+                  for i, l in enumerate(lines))
+    r = ck.tlc("Gateway", "MC_Gateway_resolve_obs.cfg", files={"obs_resolve.ndjson": obs}, timeout=900)
+    verdict = {x["c"] - 1: x["e"] for x in r.printed}
+    if len(verdict) != len(inputs):
+        raise vf.Infra("TLC judged %d of %d observations" % (len(verdict), len(inputs)))
+    for i, x in enumerate(inputs):
+        v = verdict[i]
+        ck.count("rand:" + x["host"] + "|" + ",".join(x["roots"]), x["host"] != x["host"].lower() or not v["want"]["ok"] or len(v["want"]["name"]) == 1)
+        if i % max(1, len(inputs) // 3) == 0:
+            ck.sample({"random_host": x["host"], "roots": x["roots"], "observed": byi[i][0], "statement": v["want"]})
+        if not v["good"]:
+            c = {"host": lines[i]["host"], "lit": "", "roots": lines[i]["roots"]}
+            e = v["want"]
+            ck.violation(_sig(c, e, byi[i]),
+                         _judge(c, e, byi[i]) + " (seeded random host)", {"rand": x})
+    ck.traces += len(inputs)
+
+
 def run(ck):
+    if isinstance(ck.replay, dict) and "rand" in ck.replay:
+        _random_part(ck, ck.build("gateway"), only=ck.replay["rand"])
+        return
     ck.rule = ("TLC enumerates every host of 1..4 labels over every ASCII-case variant of a label vocabulary (letters, digits, "
                "hyphen, decimal octets) x 3 root-domain lists (none / one / two incl. a three-label root), plus IPv6 and IPv4-mapped "
-               "literals; each host is resolved by the real extractHostname and by parseAddr with ports 443 and 8443; "
+               "literals; each host is resolved by the real extractHostname and by parseAddr with ports 443 and 8443; in addition seeded random "
+               "hosts (all ASCII letters, labels up to 12 characters, up to 6 labels, three realistic root lists, dotted numbers) are resolved "
+               "by the real code and the observations are judged by the same predicate inside TLC; "
                "non-trivial = host with an upper-case letter, or expected to be refused, or of the form label.root")
     bad = set()
 
@@ -61,9 +130,13 @@ def run(ck):
             bad.add(id(c))
         return m
 
-    cases, _ = vf.table_check(ck, "Gateway", "MC_Gateway_resolve.cfg", "gateway", drv_args=["resolve"],
+    binary = ck.build("gateway")
+    cases, _ = vf.table_check(ck, "Gateway", "MC_Gateway_resolve.cfg", "gateway", drv_args=["resolve"], binary=binary,
                               constants={"Depth": 1 if ck.thorough else 0}, judge=judge, sig=_sig, tlc_timeout=900,
                               nontrivial=lambda r: (_host(r["c"]) != _host(r["c"]).lower()) or not r["e"]["ok"] or len(r["e"]["name"]) == 1)
+    if ck.replay is None:
+        _random_part(ck, binary)
+        ck.exhaustive = False      # the enumerated part is complete, the random part is a sample
     leads = [r for r in cases if r.get("lead")]
     hit = [r for r in leads if id(r["c"]) in bad]
     ck.extra["model_leads"] = {"code_variant_counterexamples": len(leads), "reproduced_on_real_code": len(hit)}
